@@ -191,6 +191,184 @@ pub open spec fn is_reciprocal_2(d: u128, v: u64) -> bool {
     (v as int + B) == (B * B * B - 1) / (d as int)
 }
 
+// ---------- machine-arithmetic lemmas, kept out of the exec query (see DESIGN 3.5 "query shape") ----------
+
+// the wrapping computation of r equals the candidate remainder mod B^2
+pub proof fn lemma_3x2_r_mod(u2: int, u1: int, u0: int, d1: int, d0: int, q1i: int, r1: int, t: int, r: int)
+    requires
+        0 <= d1 * B + d0 < B * B,
+        r1 == (u1 - (q1i * d1) % B) % B,
+        t == d0 * q1i,
+        r == ((r1 * B + u0 - t) % (B * B) - (d1 * B + d0)) % (B * B),
+    ensures
+        r == ((u2 * B + u1) * B + u0 - (q1i + 1) * (d1 * B + d0)) % (B * B)
+{
+    let bb = B * B;
+    let di = d1 * B + d0;
+    let rt = (u2 * B + u1) * B + u0 - (q1i + 1) * di;
+    lemma_sub_mod_noop_right(u1, q1i * d1, B);
+    assert(r1 == (u1 - q1i * d1) % B);
+    let j = r1 * B + u0;
+    lemma_sub_mod_noop((j - t), di, bb);
+    lemma_small_mod(di as nat, bb as nat);
+    assert(r == (j - t - di) % bb);
+    let a = u1 - q1i * d1;
+    lemma_fundamental_div_mod(a, B);
+    assert((a % B) * B + u0 - t - di == (a * B + u0 - t - di) + (-(a / B)) * bb) by(nonlinear_arith)
+        requires a == B * (a / B) + a % B, bb == B * B;
+    lemma_mod_multiples_vanish(-(a / B), a * B + u0 - t - di, bb);
+    assert(r == (a * B + u0 - t - di) % bb);
+    assert(a * B + u0 - t - di == rt + (-u2) * bb) by(nonlinear_arith)
+        requires a == u1 - q1i * d1, t == d0 * q1i, di == d1 * B + d0, rt == (u2 * B + u1) * B + u0 - (q1i + 1) * di, bb == B * B;
+    lemma_mod_multiples_vanish(-u2, rt, bb);
+}
+
+// first adjustment: decide on  floor(r/B) >= q0
+pub proof fn lemma_3x2_adjust1(rt: int, di: int, q0i: int, qc: int, ui: int)
+    requires
+        B * B / 2 <= di < B * B, 0 <= q0i < B, 1 <= qc <= B,
+        rt == ui - qc * di, 0 <= ui < di * B,
+        ({ let m = if B * B - di >= q0i * B { B * B - di } else { q0i * B }; m - B * B <= rt < m }),
+    ensures
+        ({
+            let bb = B * B;
+            let ra = rt % bb;
+            let c = ra / B >= q0i;
+            let qb = if c { qc - 1 } else { qc };
+            let rb = if c { rt + di } else { rt };
+            &&& 0 <= ra < bb
+            &&& c ==> (ra + di) % bb == rb && (qc % B - 1) % B == qb
+            &&& !c ==> ra == rb && qc % B == qb
+            &&& 0 <= rb < 2 * di && 0 <= qb && qb * di + rb == ui
+        })
+{
+    let bb = B * B;
+    let m = if bb - di >= q0i * B { bb - di } else { q0i * B };
+    let ra = rt % bb;
+    lemma_mod_bound(rt, bb);
+    lemma_fundamental_div_mod(ra, B);
+    lemma_mod_bound(ra, B);
+    let c = ra / B >= q0i;
+    assert(c == (ra >= q0i * B)) by(nonlinear_arith)
+        requires c == (ra / B >= q0i), ra == B * (ra / B) + ra % B, 0 <= ra % B < B;
+    assert(m <= bb) by(nonlinear_arith) requires m == (if bb - di >= q0i * B { bb - di } else { q0i * B }), q0i < B, q0i >= 0, di > 0, bb == B * B;
+    let qb = if c { qc - 1 } else { qc };
+    let rb = if c { rt + di } else { rt };
+    if rt < 0 {
+        lemma_mod_add_multiples_vanish(rt, bb);
+        lemma_small_mod((rt + bb) as nat, bb as nat);
+        assert(ra == rt + bb);
+        assert(c);
+        lemma_mod_add_multiples_vanish(rt + di, bb);
+        lemma_small_mod((rt + di) as nat, bb as nat);
+        lemma_sub_mod_noop(qc, 1, B);
+        lemma_small_mod(1, B as nat);
+        lemma_small_mod((qc - 1) as nat, B as nat);
+    } else {
+        lemma_small_mod(rt as nat, bb as nat);
+        assert(ra == rt);
+        assert(qc < B) by(nonlinear_arith) requires rt >= 0, rt == ui - qc * di, ui < di * B, di > 0;
+        lemma_small_mod(qc as nat, B as nat);
+        if c {
+            assert(rt < bb - di);
+            lemma_small_mod((rt + di) as nat, bb as nat);
+            lemma_small_mod((qc - 1) as nat, B as nat);
+        }
+    }
+    assert(qb * di + rb == ui) by(nonlinear_arith)
+        requires rt == ui - qc * di, (qb == qc - 1 && rb == rt + di) || (qb == qc && rb == rt);
+}
+
+// second (rare) adjustment
+pub proof fn lemma_3x2_adjust2(qb: int, rb: int, di: int, ui: int)
+    requires qb * di + rb == ui, di <= rb < 2 * di, 0 <= ui < di * B, 0 <= qb, 0 < di < B * B
+    ensures qb + 1 < B, (rb - di) % (B * B) == rb - di, (qb + 1) % B == qb + 1, (qb + 1) * di + (rb - di) == ui
+{
+    lemma_small_mod((rb - di) as nat, (B * B) as nat);
+    assert(qb + 1 < B) by(nonlinear_arith) requires qb * di + rb == ui, rb >= di, ui < di * B, di > 0;
+    lemma_small_mod((qb + 1) as nat, B as nat);
+    assert((qb + 1) * di + (rb - di) == ui) by(nonlinear_arith) requires qb * di + rb == ui;
+}
+
+// everything the exec function needs, in terms of the machine values only
+pub proof fn lemma_3x2_q_no_overflow(u21i: int, di: int, vi: int)
+    requires B * B / 2 <= di < B * B, 0 <= u21i < di, 0 <= vi < B, vi + B == (B * B * B - 1) / di
+    ensures 0 <= (u21i / B) * vi, (u21i / B) * vi + u21i < B * B
+{
+    let u2 = u21i / B; let u1 = u21i % B; let d1 = di / B; let d0 = di % B; let vv = vi + B;
+    lemma_fundamental_div_mod(u21i, B);
+    lemma_fundamental_div_mod(di, B);
+    assert(B * u2 == u2 * B && B * d1 == d1 * B) by(nonlinear_arith);
+    assert(0 <= u2 < B && 0 <= d1 < B) by(nonlinear_arith)
+        requires u21i == B * u2 + u1, di == B * d1 + d0, 0 <= u1 < B, 0 <= d0 < B, 0 <= u21i, u21i < B * B, 0 <= di, di < B * B;
+    let qi = u2 * vv + u1;
+    lemma_fundamental_div_mod(qi, B);
+    assert(B * (qi / B) == (qi / B) * B) by(nonlinear_arith);
+    lemma_mod_bound(qi, B);
+    lemma_mg10_3x2(u2, u1, 0, d1, d0, vv, qi / B, qi % B);
+    assert(qi < B * B) by(nonlinear_arith) requires qi == (qi / B) * B + qi % B, qi / B <= B - 1, qi % B <= B - 1;
+    assert(u2 * vi + u21i == qi) by(nonlinear_arith) requires vv == vi + B, u21i == u2 * B + u1, qi == u2 * vv + u1;
+    assert(u2 * vi >= 0) by(nonlinear_arith) requires u2 >= 0, vi >= 0;
+}
+
+#[verifier::opaque]
+pub open spec fn res_3x2(u21i: int, u0i: int, di: int, vi: int) -> (int, int) {
+    let bb = B * B;
+    let qi = (u21i / B) * vi + u21i;
+    let r1 = (u21i % B - ((qi / B) * (di / B)) % B) % B;
+    let t = (di % B) * (qi / B);
+    let r = ((r1 * B + u0i - t) % bb - di) % bb;
+    let q1 = (qi / B + 1) % B;
+    let c = r / B >= qi % B;
+    let r_a = if c { (r + di) % bb } else { r };
+    let q_a = if c { (q1 - 1) % B } else { q1 };
+    let c2 = r_a >= di;
+    (if c2 { (q_a + 1) % B } else { q_a }, if c2 { (r_a - di) % bb } else { r_a })
+}
+
+pub proof fn lemma_3x2_all(u21i: int, u0i: int, di: int, vi: int)
+    requires B * B / 2 <= di < B * B, 0 <= u21i < di, 0 <= u0i < B, 0 <= vi < B, vi + B == (B * B * B - 1) / di
+    ensures ({
+        let (qf, rf) = res_3x2(u21i, u0i, di, vi);
+        qf * di + rf == u21i * B + u0i && 0 <= rf < di && 0 <= qf < B
+    })
+{
+    reveal(res_3x2);
+    let bb = B * B;
+    let u2 = u21i / B; let u1 = u21i % B; let d1 = di / B; let d0 = di % B; let vv = vi + B;
+    let ui = u21i * B + u0i;
+    lemma_fundamental_div_mod(u21i, B);
+    lemma_fundamental_div_mod(di, B);
+    assert(B * u2 == u2 * B && B * d1 == d1 * B) by(nonlinear_arith);
+    assert(0 <= u2 < B && 0 <= d1 < B) by(nonlinear_arith)
+        requires u21i == B * u2 + u1, di == B * d1 + d0, 0 <= u1 < B, 0 <= d0 < B, 0 <= u21i, u21i < B * B, 0 <= di, di < B * B;
+    let qi = u2 * vi + u21i;
+    let qi2 = u2 * vv + u1;
+    assert(qi == qi2) by(nonlinear_arith) requires vv == vi + B, u21i == u2 * B + u1, qi == u2 * vi + u21i, qi2 == u2 * vv + u1;
+    lemma_fundamental_div_mod(qi, B);
+    assert(B * (qi / B) == (qi / B) * B) by(nonlinear_arith);
+    lemma_mod_bound(qi, B);
+    let q1i = qi / B; let q0i = qi % B; let qc = q1i + 1;
+    lemma_mg10_3x2(u2, u1, u0i, d1, d0, vv, q1i, q0i);
+    let rt = ui - qc * di;
+    assert(ui == (u2 * B + u1) * B + u0i);
+    assert(di == d1 * B + d0);
+    assert(ui < di * B) by(nonlinear_arith) requires ui == u21i * B + u0i, u21i <= di - 1, u0i < B;
+    assert(ui >= 0) by(nonlinear_arith) requires ui == u21i * B + u0i, u21i >= 0, u0i >= 0;
+    let r1 = (u1 - (q1i * d1) % B) % B;
+    let t = d0 * q1i;
+    let r = ((r1 * B + u0i - t) % bb - di) % bb;
+    lemma_3x2_r_mod(u2, u1, u0i, d1, d0, q1i, r1, t, r);
+    assert(rt == (u2 * B + u1) * B + u0i - (q1i + 1) * (d1 * B + d0));
+    assert(r == rt % bb);
+    lemma_3x2_adjust1(rt, di, q0i, qc, ui);
+    let c = r / B >= q0i;
+    let qb = if c { qc - 1 } else { qc };
+    let rb = if c { rt + di } else { rt };
+    if rb >= di { lemma_3x2_adjust2(qb, rb, di, ui); }
+    else { lemma_small_mod(qb as nat, B as nat); assert(qb < B) by(nonlinear_arith) requires qb * di + rb == ui, rb >= 0, ui < di * B, di > 0; }
+}
+
 // ---------- the real function (src/algorithms/div/small.rs), N9 applied ----------
 pub fn div_3x2_mg10(u21: u128, u0: u64, d: u128, v: u64) -> (res: (u64, u128))
     requires
@@ -201,150 +379,43 @@ pub fn div_3x2_mg10(u21: u128, u0: u64, d: u128, v: u64) -> (res: (u64, u128))
         res.0 as int * d as int + res.1 as int == u21 as int * B + u0 as int,
         res.1 < d,
 {
-    let ghost u2 = (u21 as int) / B;
-    let ghost u1 = (u21 as int) % B;
-    let ghost d1 = (d as int) / B;
-    let ghost d0 = (d as int) % B;
-    let ghost vv = v as int + B;
-    let ghost di = d as int;
-    let ghost ui = u21 as int * B + u0 as int;
     proof {
         assert(B * B == 0x1_0000_0000_0000_0000_0000_0000_0000_0000) by(compute_only);
-        lemma_fundamental_div_mod(u21 as int, B);
-        lemma_fundamental_div_mod(d as int, B);
-        assert(B * u2 == u2 * B && B * d1 == d1 * B) by(nonlinear_arith);
-        assert(0 <= u2 < B && 0 <= d1 < B) by(nonlinear_arith)
-            requires u21 as int == B * u2 + u1, d as int == B * d1 + d0, 0 <= u1 < B, 0 <= d0 < B,
-                     0 <= u21 as int, (u21 as int) < B * B, 0 <= d as int, (d as int) < B * B;
-        lemma_k3(di, vv);
-        // no overflow in mul(u2, v) + u21 : u2*vv + u1 < B*B  (from the lemma, needs q decomposition first)
-    }
-    // q = v*u2 + u21
-    proof {
-        // bound needed before executing the addition: u2*v + u21 == u2*vv + u1 < B*B
-        let qi = u2 * vv + u1;
-        lemma_fundamental_div_mod(qi, B);
-        assert(B * (qi / B) == (qi / B) * B) by(nonlinear_arith);
-        lemma_mod_bound(qi, B);
-        lemma_mg10_3x2(u2, u1, u0 as int, d1, d0, vv, qi / B, qi % B);
-        assert(qi / B < B);
-        assert(qi < B * B) by(nonlinear_arith) requires qi == (qi / B) * B + qi % B, qi / B <= B - 1, qi % B <= B - 1;
-        assert(u2 * (v as int) + u21 as int == qi) by(nonlinear_arith)
-            requires vv == v as int + B, u21 as int == u2 * B + u1, qi == u2 * vv + u1;
-        assert(u2 * (v as int) >= 0) by(nonlinear_arith) requires u2 >= 0, v as int >= 0;
+        lemma_3x2_q_no_overflow(u21 as int, d as int, v as int);
     }
     let q = u128::mul(u21.high(), v) + u21;
+    let ghost bb = B * B;
     let ghost qi = q as int;
-    let ghost q1i = qi / B;
-    let ghost q0i = qi % B;
-    let ghost qc = q1i + 1;
-    let ghost rt = ui - qc * di;
-    let ghost m = if B * B - di >= q0i * B { B * B - di } else { q0i * B };
-    proof {
-        assert(ui == (u2 * B + u1) * B + u0 as int);
-        assert(di == d1 * B + d0);
-    }
+    proof { assert(qi == ((u21 as int) / B) * v as int + u21 as int); }
     let r1 = u21.low().wrapping_sub(q.high().wrapping_mul(d.high()));
+    proof { assert(r1 as int == ((u21 as int) % B - ((qi / B) * ((d as int) / B)) % B) % B); }
     let t = u128::mul(d.low(), q.high());
+    proof { assert(t as int == ((d as int) % B) * (qi / B)); }
     let mut r = u128::join(r1, u0).wrapping_sub(t).wrapping_sub(d);
+    proof { assert(r as int == ((r1 as int * B + u0 as int - t as int) % bb - d as int) % bb); }
     let mut q1 = q.high().wrapping_add(1);
-    proof {
-        let bb = B * B;
-        assert(q1 as int == qc % B);
-        // r1 == (u1 - q1i*d1) mod B
-        let p = (q1i * d1) % B;
-        assert(r1 as int == (u1 - p) % B);
-        lemma_sub_mod_noop_right(u1, q1i * d1, B);
-        assert(r1 as int == (u1 - q1i * d1) % B);
-        assert(t as int == d0 * q1i);
-        // r == rt mod B^2
-        let j = r1 as int * B + u0 as int;
-        assert(r as int == ((j - t as int) % bb - di) % bb);
-        lemma_sub_mod_noop((j - t as int), di, bb);
-        lemma_mod_bound(di, bb); lemma_small_mod(di as nat, bb as nat);
-        assert(r as int == (j - t as int - di) % bb);
-        // j == (u1 - q1i*d1)*B + u0  (mod B^2)
-        let a = u1 - q1i * d1;
-        lemma_fundamental_div_mod(a, B);
-        // a == B*(a/B) + a%B  => (a%B)*B == a*B - (a/B)*B*B
-        assert((a % B) * B + u0 as int - t as int - di == (a * B + u0 as int - t as int - di) + (-(a / B)) * bb) by(nonlinear_arith)
-            requires a == B * (a / B) + a % B, bb == B * B;
-        lemma_mod_multiples_vanish(-(a / B), a * B + u0 as int - t as int - di, bb);
-        assert(r as int == (a * B + u0 as int - t as int - di) % bb);
-        // a*B + u0 - t - d == rt - u2*B*B
-        assert(a * B + u0 as int - t as int - di == rt + (-u2) * bb) by(nonlinear_arith)
-            requires a == u1 - q1i * d1, t as int == d0 * q1i, di == d1 * B + d0, rt == ui - qc * di, qc == q1i + 1,
-                     ui == (u2 * B + u1) * B + u0 as int, bb == B * B;
-        lemma_mod_multiples_vanish(-u2, rt, bb);
-        assert(r as int == rt % bb);
-    }
-    let ghost r_a = r;
-    let c = r.high() >= q.low();
-    if c {
+    proof { assert(q1 as int == (qi / B + 1) % B); }
+    let ghost r_0 = r as int; let ghost q1_0 = q1 as int;
+    let ghost c = r_0 / B >= qi % B;
+    if r.high() >= q.low() {
         q1 = q1.wrapping_sub(1);
         r = r.wrapping_add(d);
     }
-    let ghost qb: int = if c { qc - 1 } else { qc };
-    let ghost rb: int = if c { rt + di } else { rt };
+    let ghost r_1 = r as int; let ghost q1_1 = q1 as int;
     proof {
-        let bb = B * B;
-        lemma_fundamental_div_mod(r_a as int, B);
-        lemma_mod_bound(r_a as int, B);
-        // c <==> r_a >= q0i*B
-        assert(c == (r_a as int >= q0i * B)) by(nonlinear_arith)
-            requires c == ((r_a as int) / B >= q0i), r_a as int == B * ((r_a as int) / B) + (r_a as int) % B, 0 <= (r_a as int) % B < B;
-        assert(m <= bb) by(nonlinear_arith) requires m == (if bb - di >= q0i * B { bb - di } else { q0i * B }), q0i < B, q0i >= 0, di > 0, bb == B * B;
-        if rt < 0 {
-            lemma_mod_add_multiples_vanish(rt, bb);
-            lemma_small_mod((rt + bb) as nat, bb as nat);
-            assert(r_a as int == rt + bb);
-            assert(c);
-            assert(0 <= rb < di);
-            lemma_mod_add_multiples_vanish(rt + di, bb);
-            lemma_small_mod((rt + di) as nat, bb as nat);
-            assert(r as int == rb);
-            lemma_sub_mod_noop(qc, 1, B);
-            lemma_small_mod(1, B as nat);
-            lemma_small_mod((qc - 1) as nat, B as nat);
-            assert(q1 as int == qb);
-        } else {
-            lemma_small_mod(rt as nat, bb as nat);
-            assert(r_a as int == rt);
-            assert(ui < di * B) by(nonlinear_arith) requires ui == u21 as int * B + u0 as int, (u21 as int) <= di - 1, (u0 as int) < B;
-            assert(qc < B) by(nonlinear_arith) requires rt >= 0, rt == ui - qc * di, ui < di * B, di > 0;
-            lemma_small_mod(qc as nat, B as nat);
-            if c {
-                assert(rt < bb - di);
-                lemma_small_mod((rt + di) as nat, bb as nat);
-                assert(r as int == rb);
-                lemma_small_mod((qc - 1) as nat, B as nat);
-                assert(q1 as int == qb);
-            } else {
-                assert(r as int == rb);
-                assert(q1 as int == qb);
-            }
-        }
-        assert(qb * di + rb == ui) by(nonlinear_arith)
-            requires rt == ui - qc * di, (qb == qc - 1 && rb == rt + di) || (qb == qc && rb == rt);
-        assert(0 <= rb < 2 * di);
-        assert(0 <= qb);
+        assert(r_1 == (if c { (r_0 + d as int) % bb } else { r_0 }));
+        assert(q1_1 == (if c { (q1_0 - 1) % B } else { q1_0 }));
     }
-    let ghost r_b = r;
+    let ghost c2 = r_1 >= d as int;
     if r >= d {
         q1 = q1.wrapping_add(1);
         r = r.wrapping_sub(d);
     }
     proof {
-        let bb = B * B;
-        if r_b >= d {
-            lemma_small_mod((rb - di) as nat, bb as nat);
-            assert(r as int == rb - di);
-            assert(qb + 1 < B) by(nonlinear_arith)
-                requires qb * di + rb == ui, rb >= di, ui < di * B, di > 0;
-            lemma_small_mod((qb + 1) as nat, B as nat);
-            assert(q1 as int == qb + 1);
-            assert((qb + 1) * di + (rb - di) == ui) by(nonlinear_arith) requires qb * di + rb == ui;
-        }
+        assert(r as int == (if c2 { (r_1 - d as int) % bb } else { r_1 }));
+        assert(q1 as int == (if c2 { (q1_1 + 1) % B } else { q1_1 }));
+        assert((q1 as int, r as int) == res_3x2(u21 as int, u0 as int, d as int, v as int)) by { reveal(res_3x2); }
+        lemma_3x2_all(u21 as int, u0 as int, d as int, v as int);
     }
     (q1, r)
 }
